@@ -390,10 +390,32 @@ pub fn run_misuse_case(kind: u8, variant: u8, trace: &mut Vec<String>) -> Vec<Fa
             let x = st1.var(1i32);
             let y = st2.var(5i32);
             let yw = if variant % 2 == 0 { y.watch() } else { y.map(|v| v + 1) };
-            let b = x.bind(move |_| yw.clone());
+            // decoder 2: the foreign node may also come from a later run of the closure, after
+            // some runs that returned nodes of the right state
+            let good_runs = if crate::choice::dv() >= 2 { ((variant / 2) % 3) as i32 } else { 0 };
+            let own = st1.constant(7i32);
+            let b = x.bind(move |v| if *v <= good_runs { own.clone() } else { yw.clone() });
             let o = b.observe();
+            for k in 0..good_runs {
+                if let Err(m) = guarded(|| st1.stabilise()) {
+                    fails.push(fail("panic-before-misuse", format!("a bind returning a node of its own state panicked: {m}")));
+                    return fails;
+                }
+                if o.try_get_value() != Ok(7) {
+                    fails.push(fail("value", format!("bind over own-state constant returned {:?}", o.try_get_value())));
+                }
+                x.set(k + 2);
+            }
+            if good_runs > 0 {
+                trace.push(format!("the closure returned own-state nodes on its first {good_runs} run(s)"));
+            }
             let r = guarded(|| st1.stabilise());
             expect_panic("node of another state as bind result", r, None, &mut fails, trace);
+            if let Ok(v) = o.try_get_value() {
+                if v != 7 {
+                    fails.push(fail("cross-state-computed", format!("after the bind returned a node of another state its observer reads {v}")));
+                }
+            }
             let r = guarded(move || {
                 drop(o);
                 drop(b);
